@@ -111,54 +111,55 @@ class MXCSRRegister:
 
     def __call__(self, FZ=None, DAZ=None, RN=None):
 
-        current = self.get_mxcsr()
-        new_value = current.value
+        def modify(new_value):
+            """Return the given register value with the requested bits changed."""
+            if RN is not None:
+                r = dict(nearest=0, down=1, up=2, towardszero=3)[RN]
+                if r == 0:
+                    new_value &= ~(1 << 14)
+                    new_value &= ~(1 << 13)
+                elif r == 1:
+                    new_value &= ~(1 << 14)
+                    new_value |= 1 << 13
+                elif r == 2:
+                    new_value |= 1 << 14
+                    new_value &= ~(1 << 13)
+                elif r == 3:
+                    new_value |= 1 << 14
+                    new_value |= 1 << 13
+                else:
+                    assert 0  # unreachable
+
+            if FZ is not None:
+                if FZ:
+                    new_value |= 1 << 15
+                else:
+                    new_value &= ~(1 << 15)
+
+            if DAZ is not None:
+                if DAZ:
+                    new_value |= 1 << 6
+                else:
+                    new_value &= ~(1 << 6)
+            return new_value
 
         if RN is not None:
-            r = dict(nearest=0, down=1, up=2, towardszero=3)[RN]
-            if r == 0:
-                new_value &= ~(1 << 14)
-                new_value &= ~(1 << 13)
-            elif r == 1:
-                new_value &= ~(1 << 14)
-                new_value |= 1 << 13
-            elif r == 2:
-                new_value |= 1 << 14
-                new_value &= ~(1 << 13)
-            elif r == 3:
-                new_value |= 1 << 14
-                new_value |= 1 << 13
-            else:
-                assert 0  # unreachable
-
-        if FZ is not None:
-            if FZ:
-                new_value |= 1 << 15
-            else:
-                new_value &= ~(1 << 15)
-
-        if DAZ is not None:
-            if DAZ:
-                new_value |= 1 << 6
-            else:
-                new_value &= ~(1 << 6)
-
-        new = ctypes.c_uint32(new_value)
+            modify(0)  # validate RN eagerly
 
         class context(contextlib.ContextDecorator):
-            def __init__(self, register, desired_state):
+            def __init__(self, register, modify):
                 self.register = register
-                self.saved_state = None
-                self.desired_state = desired_state
+                self.saved_states = []
+                self.modify = modify
 
             def __enter__(self):
-                assert self.saved_state is None
-                self.saved_state = self.register.get_mxcsr()
-                self.register.set_mxcsr(self.desired_state)
+                # the requested bits are applied to the register value at the time of entering
+                saved_state = self.register.get_mxcsr()
+                self.saved_states.append(saved_state)
+                self.register.set_mxcsr(ctypes.c_uint32(self.modify(saved_state.value)))
 
             def __exit__(self, exc_type, exc, exc_tb):
-                assert self.saved_state is not None
-                self.register.set_mxcsr(self.saved_state)
-                self.saved_state = None
+                assert self.saved_states
+                self.register.set_mxcsr(self.saved_states.pop())
 
-        return context(self, new)
+        return context(self, modify)
